@@ -2,6 +2,7 @@ package keeper
 
 import (
 	"fmt"
+	"math"
 	"sort"
 
 	errorsmod "cosmossdk.io/errors"
@@ -257,6 +258,10 @@ func (k Keeper) GetLastBondedValidators(ctx sdk.Context) ([]stakingtypes.Validat
 // from the last bonded validators in the staking module.
 func (k Keeper) GetLastProviderConsensusActiveValidators(ctx sdk.Context) ([]stakingtypes.Validator, error) {
 	maxVals := k.GetMaxProviderConsensusValidators(ctx)
+	// the parameter is an int64: saturate instead of wrapping around in the conversion
+	if maxVals > math.MaxUint32 {
+		maxVals = math.MaxUint32
+	}
 	return ccv.GetLastBondedValidatorsUtil(ctx, k.stakingKeeper, uint32(maxVals))
 }
 
